@@ -160,10 +160,37 @@ IMPURE_METHODS = {"append", "extend", "insert", "pop", "remove", "clear", "updat
                   "set_bytes_remaining", "parse_args", "add_argument", "add_parser", "set_defaults"}
 
 
+_stateful_cache = {}
+
+
+def _stateful_functions(mod):
+    """module-level functions that advance an iterator / generator they are handed (next, send, yield): two calls with the
+    same text are different values, so their results are never substituted"""
+    key = id(mod)
+    if key not in _stateful_cache:
+        out = set()
+        fns = {n.name: n for n in getattr(mod, "tree", ast.Module(body=[], type_ignores=[])).body if isinstance(n, ast.FunctionDef)}
+        changed = True
+        while changed:
+            changed = False
+            for name, f in fns.items():
+                if name in out:
+                    continue
+                for n in ast.walk(f):
+                    if isinstance(n, (ast.Yield, ast.YieldFrom)) or (isinstance(n, ast.Call) and (
+                            norm(n.func) in ("next",) or (isinstance(n.func, ast.Attribute) and n.func.attr in ("send", "throw"))
+                            or (isinstance(n.func, ast.Name) and n.func.id in out))):
+                        out.add(name)
+                        changed = True
+                        break
+        _stateful_cache[key] = out
+    return _stateful_cache[key]
+
+
 class Summariser:
     def __init__(self, mod, fn, impure=(), pure=(), list_vars=None, max_paths=MAX_PATHS):
         self.mod, self.fn = mod, fn
-        self.impure = set(IMPURE_CALLS) | set(impure)
+        self.impure = set(IMPURE_CALLS) | set(impure) | _stateful_functions(mod)
         self.pure = set(pure)
         self.max_paths = max_paths
         self.list_vars = self._list_vars() if list_vars is None else set(list_vars)
@@ -273,6 +300,8 @@ class Summariser:
             return bool(e.keys)
         if isinstance(e, ast.JoinedStr) and any(isinstance(v, ast.Constant) and v.value for v in e.values):
             return True
+        if isinstance(e, ast.Call) and isinstance(e.func, ast.Name) and e.func.id.endswith(("Error", "Exception", "Event")):
+            return True  # a freshly constructed exception / event object is truthy
         if isinstance(e, ast.Compare) and len(e.ops) == 1:
             l, op, r = e.left, e.ops[0], e.comparators[0]
             if isinstance(op, (ast.Is, ast.IsNot, ast.Eq, ast.NotEq)) and isinstance(l, (ast.Name, ast.Attribute)) \
@@ -284,6 +313,8 @@ class Summariser:
                         return ("const", repr(x.value)) if x.value is None or x.value is Ellipsis or isinstance(x.value, bool) else ("obj", None)
                     if isinstance(x, (ast.Tuple, ast.List, ast.Dict, ast.Set, ast.JoinedStr, ast.ListComp, ast.DictComp, ast.BinOp)):
                         return ("obj", None)
+                    if isinstance(x, ast.Call) and isinstance(x.func, ast.Name) and x.func.id[:1].isupper():
+                        return ("obj", None)  # an instance
                     return None
                 kl, kr = kind(l), kind(r)
                 if kl and kr and (kl[0] == "const" or kr[0] == "const"):
